@@ -298,11 +298,76 @@ func ruleHashRange(c *Ctx) {
 						ok = true
 					}
 				}
+				c.hashValueAgrees(fi, ti, key)
 				c.check(ok, key, at, "pos + inputLen ≤ len(Data) for the position stored into "+tablePath,
 					"the position "+p.String()+" stored into "+tablePath+" is not proved to satisfy pos + inputLen ≤ len(Data): the hashed bytes would include margin bytes beyond the data, which are stale after the buffer is reused (Reset/Shrink) — a reset parser then differs from a new one")
 			}
 		}
 	}
+}
+
+// hashValueAgrees: the check value stored next to a position is the very word that selects the slot (the input masked
+// to inputLen bytes): a value taken from the unmasked load contains bytes behind pos + inputLen — at the end of the
+// data these are margin bytes, stale after the buffer is reused — and never equals the masked value lookups compare
+// it with.
+func (c *Ctx) hashValueAgrees(fi *FuncInfo, ti tableInsert, key string) {
+	st, ok := ti.in.(*ssa.Store)
+	if !ok {
+		return // insert helper of the bucket hash: positions only
+	}
+	ia, ok := st.Addr.(*ssa.IndexAddr)
+	if !ok {
+		return
+	}
+	stT, ok := st.Val.Type().Underlying().(*types.Struct)
+	if !ok || stT.NumFields() != 2 {
+		return
+	}
+	posName := c.posFieldName(st.Val.Type())
+	valName := ""
+	for i := 0; i < stT.NumFields(); i++ {
+		if stT.Field(i).Name() != posName {
+			valName = stT.Field(i).Name()
+		}
+	}
+	val := structComponent(st.Val, valName)
+	if val == nil || val == st.Val {
+		return
+	}
+	// the hashed word: first argument of the hash helper, or the non-constant leaf under the multiply/shift of an
+	// inlined hash
+	var word ssa.Value
+	v := stripConv(ia.Index)
+	for depth := 0; depth < 8 && word == nil; depth++ {
+		switch x := v.(type) {
+		case *ssa.Call:
+			if callee := x.Call.StaticCallee(); callee != nil && callee.Pkg == c.lz && len(x.Call.Args) >= 1 {
+				word = x.Call.Args[0]
+			} else {
+				depth = 8
+			}
+		case *ssa.BinOp:
+			if x.Op == token.AND {
+				word = x
+				break
+			}
+			if _, isC := x.Y.(*ssa.Const); isC || x.Op == token.SHR || x.Op == token.SHL {
+				v = stripConv(x.X)
+			} else if _, isC := x.X.(*ssa.Const); isC {
+				v = stripConv(x.Y)
+			} else {
+				depth = 8
+			}
+		default:
+			depth = 8
+		}
+	}
+	if word == nil {
+		c.fail(key+":value", st.Pos(), "the word hashed for the slot index is not recognised")
+		return
+	}
+	c.check(stripConv(val) == stripConv(word), key+":value", st.Pos(), "the stored check value is the hashed (masked) word",
+		"the check value stored with the position ("+val.Name()+") is not the word that was hashed for the slot ("+word.Name()+"): it contains bytes behind pos + inputLen (margin bytes at the end of the data, stale after Reset) and differs from the masked value that lookups compare it with")
 }
 
 func lastNonEmpty(p string) string {
